@@ -344,7 +344,10 @@ func runGrid(R *vlib.Out, prop string) {
 		return
 	}
 	if prop == "C09" {
-		defer runC09Sched(R)
+		// the schedule part first: it is small, and a deadline reached in the grid must not skip it
+		saved := scenarioBudget
+		runC09Sched(R)
+		scenarioBudget = saved
 	}
 	Ns := map[string]map[string][]int{
 		"C08": {"quick": {1, 10, 60}, "thorough": {1, 2, 10, 30, 60}},
@@ -556,7 +559,7 @@ func runC09Sched(R *vlib.Out) {
 			R.Cap("deadline")
 			break
 		}
-		scenarioBudget = 4 * vlib.Remaining() / time.Duration(len(ps)-i)
+		scenarioBudget = vlib.Remaining() / 3 / time.Duration(len(ps)-i) // at most a third of the time: the grid follows
 		sc := c09SchedScenario("c09s", p)
 		sc.Bound = bound
 		exploreSched(R, sc)
